@@ -609,4 +609,10 @@ def runMany (c : Cfg) : List (List Dial) → St → St
   | [], s => s
   | w :: ws, s => runMany c ws (runForever c { s with dials := w })
 
+/-- several runs on the same object, each with its own keepalive settings (`run_forever(ping_interval=…, ping_timeout=…)`
+    are per-call arguments). -/
+def runManyK (c : Cfg) : List ((Int × Option Int) × List Dial) → St → St
+  | [], s => s
+  | ((iv, to), w) :: ws, s => runManyK c ws (runForever { c with iv := iv, to := to } { s with dials := w })
+
 end WS.Model.App
